@@ -29,7 +29,7 @@ from .. import alg
 LEVEL = 'other'
 UNITS = ['src/geodesy/ECEFConverter.cpp', 'src/geodesy/EarthEllipsoid.cpp', 'src/geodesy/GeodeticCoordinates.cpp']
 ENGINES = 'E-ALG + E-INT over romea-facts'
-TECHNIQUE = 'the quantity compared with the iteration tolerance evaluated as the step just taken, factories routing each argument to the field of its name, quotients judged on witness points that take their own path, exits in front of the latitude iteration judged by value on forward-mapped witness points, capped iteration from the closed-form guess and from a start carried over from an earlier call, epilogue freshness (one loop iteration read from a symbolic previous iterate, d altitude / d previous on witness points), sphere definedness of the ellipsoid constants, sweep of every function read (and its in-repo callees) for frozen function-local statics, single precision inside double computations, lossy copy constructors, presence- or argument-keyed member caches, reference members bound to constructor arguments, loop accumulators that are members, members derived in the constructor and not refreshed by setters, results returned by reference to a member buffer, members filled from an argument under a condition that ignores it, hidden non-virtual base members, self-bound reference members, reductions that accumulate in float; stored-result paths of toECEF must compare every input of the formulas (member caches); witness-point definedness of every quotient (no 0/0 in the quantifier), stopping-tolerance bounds, hidden-state (static cache) analysis; formula extraction from the AST (no execution) and exact algebra: ellipsoid/normal identities of the forward map, substitution of the forward map into the inverse equations, range typing of the outputs'
+TECHNIQUE = 'tolerance keys of remembered results in the hit-return form (sweep H5), the quantity compared with the iteration tolerance evaluated as the step just taken, factories routing each argument to the field of its name, quotients judged on witness points that take their own path, exits in front of the latitude iteration judged by value on forward-mapped witness points, capped iteration from the closed-form guess and from a start carried over from an earlier call, epilogue freshness (one loop iteration read from a symbolic previous iterate, d altitude / d previous on witness points), sphere definedness of the ellipsoid constants, sweep of every function read (and its in-repo callees) for frozen function-local statics, single precision inside double computations, lossy copy constructors, presence- or argument-keyed member caches, reference members bound to constructor arguments, loop accumulators that are members, members derived in the constructor and not refreshed by setters, results returned by reference to a member buffer, members filled from an argument under a condition that ignores it, hidden non-virtual base members, self-bound reference members, reductions that accumulate in float; stored-result paths of toECEF must compare every input of the formulas (member caches); witness-point definedness of every quotient (no 0/0 in the quantifier), stopping-tolerance bounds, hidden-state (static cache) analysis; formula extraction from the AST (no execution) and exact algebra: ellipsoid/normal identities of the forward map, substitution of the forward map into the inverse equations, range typing of the outputs'
 EXPLANATION = ('toECEF is extracted as three exact formulas and checked against the normal-line characterisation; the equations of toWGS84 (longitude, latitude update map, height) '
                'are checked to be identities after substituting the forward map; output ranges follow from the atan forms.')
 ASSUMPTIONS = ['exact real arithmetic; cos(lat) > 0, N + h > 0 (quantifier: |lat| <= 89.9 deg, h >= -11 km); 0 <= e2 < 1']
